@@ -16,7 +16,7 @@ structure GoodT (now : Nat) (t : Tor) : Prop where
   created_lw : t.present = true → t.created ≤ t.lastWrite
   lr_wit : t.present = true → t.lastRead = t.created ∨ t.lastRead ∈ t.serves
   lw_wit : t.present = true → t.lastWrite = t.created ∨ t.lastWrite ∈ t.writes
-  files_c : t.present = true → t.complete = true → t.cached = true ∧ t.dl = false
+  files_c : t.present = true → t.complete = true → t.dl = false
   files_i : t.present = true → t.complete = false → t.cached = false ∧ t.dl = true
   files_a : t.present = false → t.dl = false
 
@@ -40,28 +40,68 @@ theorem good_adv {now : Nat} {t : Tor} (d : Nat) (g : GoodT now t) : GoodT (now 
   · exact g.files_i
   · exact g.files_a
 
+theorem good_create (cfg : Cfg) {now : Nat} {t : Tor} (k : Nat) (g : GoodT now t) (hp' : t.present = false) :
+    GoodT now (createTor cfg now t k) := by
+  unfold createTor
+  by_cases hc : t.cached = true
+  · simp only [hc, if_true]
+    constructor <;> simp_all
+    · exact g.serves_now
+    · exact g.writes_now
+    · exact g.serves_now
+    · exact g.writes_now
+    · exact g.files_a hp'
+  · have hc' : t.cached = false := by simpa using hc
+    simp only [hc', Bool.false_eq_true, if_false]
+    constructor <;> simp_all
+    · exact g.serves_now
+    · exact g.writes_now
+    · exact g.serves_now
+    · exact g.writes_now
+
+theorem good_unheld {now : Nat} {t : Tor} (g : GoodT now t) (hp : t.present = true) (hc : t.complete = true) :
+    GoodT now { t with present := false } := by
+  constructor <;> simp
+  · exact g.serves_now
+  · exact g.writes_now
+  · exact g.created_now
+  · exact g.files_c hp hc
+
 theorem good_new (cfg : Cfg) {now : Nat} {t : Tor} (k : Nat) (g : GoodT now t) :
     GoodT now (newTor cfg now t k) := by
   unfold newTor
   by_cases hp : t.present = true
-  · simp [hp]; exact g
+  · simp only [hp, if_true]
+    by_cases he : (t.complete && !t.cached) = true
+    · simp only [he, if_true]
+      have hc : t.complete = true := by simp at he; exact he.1
+      by_cases hk : cfg.numPieces ≤ k
+      · simp only [hk, if_true]
+        obtain ⟨g1, g2, g3, g4, g5, g6, g7, g8, g9, g10, g11, g12, g13, g14⟩ := g
+        constructor <;> simp_all
+      · simp only [hk, if_false]
+        exact good_create cfg k (good_unheld g hp hc) rfl
+    · simp only [he, Bool.false_eq_true, if_false]; exact g
   · have hp' : t.present = false := by simpa using hp
     simp only [hp', Bool.false_eq_true, if_false]
-    by_cases hc : t.cached = true
-    · simp only [hc, if_true]
-      constructor <;> simp_all
-      · exact g.serves_now
-      · exact g.writes_now
-      · exact g.serves_now
-      · exact g.writes_now
-      · exact g.files_a hp'
-    · have hc' : t.cached = false := by simpa using hc
-      simp only [hc', Bool.false_eq_true, if_false]
-      constructor <;> simp_all
-      · exact g.serves_now
-      · exact g.writes_now
-      · exact g.serves_now
-      · exact g.writes_now
+    exact good_create cfg k g hp'
+
+theorem good_peer (cfg : Cfg) {now : Nat} {t : Tor} (k : Nat) (g : GoodT now t) :
+    GoodT now (peerTor cfg now t k) := by
+  unfold peerTor
+  by_cases hp : t.present = true
+  · simp only [hp, if_true]; exact g
+  · have hp' : t.present = false := by simpa using hp
+    simp only [hp', Bool.false_eq_true, if_false]
+    exact good_create cfg k g hp'
+
+theorem good_evict {now : Nat} {t : Tor} (g : GoodT now t) : GoodT now (evictTor t) := by
+  unfold evictTor
+  by_cases hc : t.cached = true
+  · simp only [hc, if_true]
+    obtain ⟨g1, g2, g3, g4, g5, g6, g7, g8, g9, g10, g11, g12, g13, g14⟩ := g
+    constructor <;> simp_all
+  · simp only [hc, Bool.false_eq_true, if_false]; exact g
 
 theorem good_serve {now : Nat} {t : Tor} (i : Nat) (c : Bool) (g : GoodT now t) :
     GoodT now (serveTor now t i c).1 := by
@@ -132,7 +172,7 @@ theorem good_remove {now : Nat} {t : Tor} (g : GoodT now t) : GoodT now (removeT
       · exact g.serves_now
       · exact g.writes_now
       · exact g.created_now
-      · exact (g.files_c hp hc).2
+      · exact g.files_c hp hc
     · have hc' : t.complete = false := by simpa using hc
       simp only [hc', Bool.not_false, if_true]
       constructor <;> simp
@@ -180,6 +220,10 @@ theorem good_next (cfg : Cfg) (s : State) (o : Op) (g : Good s) : Good (next cfg
   | tick => intro h; exact good_tick cfg (g h)
   | rm h => exact good_upd g h (good_rm (g h))
   | notice h => exact g
+  | peer h k => exact good_upd g h (good_peer cfg k (g h))
+  | evict h => exact good_upd g h (good_evict (g h))
+  | lost h i => exact g
+  | other => exact g
 
 theorem runFrom_good (cfg : Cfg) (ops : List Op) : ∀ s, Good s → Good (runFrom cfg s ops) := by
   induction ops with
@@ -191,6 +235,28 @@ theorem run_good (cfg : Cfg) (ops : List Op) (h : Hash) : GoodT (run cfg ops).no
 
 -- ------------------------------------------------------------------ ghost = history
 
+theorem createTor_serves (cfg : Cfg) (now : Nat) (t : Tor) (k : Nat) : (createTor cfg now t k).serves = t.serves := by
+  unfold createTor; split <;> rfl
+theorem createTor_writes (cfg : Cfg) (now : Nat) (t : Tor) (k : Nat) : (createTor cfg now t k).writes = t.writes := by
+  unfold createTor; split <;> rfl
+theorem createTor_present (cfg : Cfg) (now : Nat) (t : Tor) (k : Nat) : (createTor cfg now t k).present = true := by
+  unfold createTor; split <;> rfl
+theorem createTor_cached (cfg : Cfg) (now : Nat) (t : Tor) (k : Nat) (hc : t.cached = true) :
+    (createTor cfg now t k).cached = true := by
+  unfold createTor; simp [hc]
+theorem newTor_serves (cfg : Cfg) (now : Nat) (t : Tor) (k : Nat) : (newTor cfg now t k).serves = t.serves := by
+  unfold newTor; repeat' split
+  all_goals simp [createTor_serves]
+theorem newTor_writes (cfg : Cfg) (now : Nat) (t : Tor) (k : Nat) : (newTor cfg now t k).writes = t.writes := by
+  unfold newTor; repeat' split
+  all_goals simp [createTor_writes]
+theorem peerTor_serves (cfg : Cfg) (now : Nat) (t : Tor) (k : Nat) : (peerTor cfg now t k).serves = t.serves := by
+  unfold peerTor; split <;> simp [createTor_serves]
+theorem peerTor_writes (cfg : Cfg) (now : Nat) (t : Tor) (k : Nat) : (peerTor cfg now t k).writes = t.writes := by
+  unfold peerTor; split <;> simp [createTor_writes]
+theorem evictTor_serves (t : Tor) : (evictTor t).serves = t.serves := by unfold evictTor; split <;> rfl
+theorem evictTor_writes (t : Tor) : (evictTor t).writes = t.writes := by unfold evictTor; split <;> rfl
+
 theorem serves_step (cfg : Cfg) (s : State) (o : Op) (h : Hash) :
     ((next cfg s o).tors h).serves =
       (match serveOf h (s.now, o, (step cfg s o).2) with | some t => [t] | none => []) ++ (s.tors h).serves := by
@@ -198,17 +264,15 @@ theorem serves_step (cfg : Cfg) (s : State) (o : Op) (h : Hash) :
   | adv d => simp [next, step, serveOf]
   | new h' k =>
     by_cases e : h = h'
-    · subst e; simp only [next, step, serveOf, upd_same]
-      unfold newTor; repeat' split
-      all_goals simp
+    · subst e; simp [next, step, serveOf, upd_same, newTor_serves]
     · simp [next, step, serveOf, upd_other _ _ _ _ e]
   | serve h' i c =>
     by_cases e : h = h'
     · subst e
       simp only [next, step, upd_same]
       unfold serveTor
-      by_cases hp : (s.tors h).present = true <;> by_cases hi : i ∈ (s.tors h).pieces <;> cases c <;>
-        simp_all [serveOf]
+      by_cases hp : (s.tors h).present = true <;> by_cases hi : i ∈ (s.tors h).pieces <;>
+        cases c <;> simp_all [serveOf]
     · have e' : ¬ h' = h := fun x => e x.symm
       simp only [next, step, upd_other _ _ _ _ e]
       generalize (serveTor s.now (s.tors h') i c).2 = out
@@ -230,6 +294,16 @@ theorem serves_step (cfg : Cfg) (s : State) (o : Op) (h : Hash) :
       all_goals simp
     · simp [next, step, serveOf, upd_other _ _ _ _ e]
   | notice h' => simp [next, step, serveOf]
+  | peer h' k =>
+    by_cases e : h = h'
+    · subst e; simp [next, step, serveOf, upd_same, peerTor_serves]
+    · simp [next, step, serveOf, upd_other _ _ _ _ e]
+  | evict h' =>
+    by_cases e : h = h'
+    · subst e; simp [next, step, serveOf, upd_same, evictTor_serves]
+    · simp [next, step, serveOf, upd_other _ _ _ _ e]
+  | lost h' i => simp [next, step, serveOf]
+  | other => simp [next, step, serveOf]
 
 theorem writes_step (cfg : Cfg) (s : State) (o : Op) (h : Hash) :
     ((next cfg s o).tors h).writes =
@@ -238,9 +312,7 @@ theorem writes_step (cfg : Cfg) (s : State) (o : Op) (h : Hash) :
   | adv d => simp [next, step, writeOf]
   | new h' k =>
     by_cases e : h = h'
-    · subst e; simp only [next, step, writeOf, upd_same]
-      unfold newTor; repeat' split
-      all_goals simp
+    · subst e; simp [next, step, writeOf, upd_same, newTor_writes]
     · simp [next, step, writeOf, upd_other _ _ _ _ e]
   | serve h' i c =>
     by_cases e : h = h'
@@ -279,6 +351,16 @@ theorem writes_step (cfg : Cfg) (s : State) (o : Op) (h : Hash) :
       all_goals simp
     · simp [next, step, writeOf, upd_other _ _ _ _ e]
   | notice h' => simp [next, step, writeOf]
+  | peer h' k =>
+    by_cases e : h = h'
+    · subst e; simp [next, step, writeOf, upd_same, peerTor_writes]
+    · simp [next, step, writeOf, upd_other _ _ _ _ e]
+  | evict h' =>
+    by_cases e : h = h'
+    · subst e; simp [next, step, writeOf, upd_same, evictTor_writes]
+    · simp [next, step, writeOf, upd_other _ _ _ _ e]
+  | lost h' i => simp [next, step, writeOf]
+  | other => simp [next, step, writeOf]
 
 theorem serves_events (cfg : Cfg) (ops : List Op) : ∀ (s : State) (h : Hash),
     ((runFrom cfg s ops).tors h).serves =
@@ -374,7 +456,14 @@ theorem drop_iff_core (cfg : Cfg) (now : Nat) (t : Tor) (g : GoodT now t) (hp : 
 -- ------------------------------------------------------------------ files
 
 theorem present_new (cfg : Cfg) (now : Nat) (t : Tor) (k : Nat) (hp : t.present = true) :
-    (newTor cfg now t k).present = true := by simp [newTor, hp]
+    (newTor cfg now t k).present = true := by
+  unfold newTor; repeat' split
+  all_goals simp_all [createTor_present]
+
+theorem present_peer (cfg : Cfg) (now : Nat) (t : Tor) (k : Nat) (hp : t.present = true) :
+    (peerTor cfg now t k).present = true := by simp [peerTor, hp]
+
+theorem present_evict (t : Tor) : (evictTor t).present = t.present := by unfold evictTor; split <;> rfl
 
 theorem present_serve (now : Nat) (t : Tor) (i : Nat) (c : Bool) (hp : t.present = true) :
     (serveTor now t i c).1.present = true := by
@@ -409,6 +498,16 @@ theorem drop_only_tick_rm (cfg : Cfg) (s : State) (o : Op) (h : Hash)
     · subst e; exact Or.inr rfl
     · simp [next, step, upd_other _ _ _ _ e, hp] at hd
   | notice h' => simp [next, step, hp] at hd
+  | peer h' k =>
+    by_cases e : h = h'
+    · subst e; simp [next, step, upd_same, present_peer _ _ _ _ hp] at hd
+    · simp [next, step, upd_other _ _ _ _ e, hp] at hd
+  | evict h' =>
+    by_cases e : h = h'
+    · subst e; simp [next, step, upd_same, present_evict, hp] at hd
+    · simp [next, step, upd_other _ _ _ _ e, hp] at hd
+  | lost h' i => simp [next, step, hp] at hd
+  | other => simp [next, step, hp] at hd
 
 theorem removal_deletes_partial (cfg : Cfg) (s : State) (o : Op) (h : Hash)
     (hp : (s.tors h).present = true) (hc : (s.tors h).complete = false)
@@ -424,15 +523,20 @@ theorem removal_deletes_partial (cfg : Cfg) (s : State) (o : Op) (h : Hash)
 
 theorem idle_drop_keeps (cfg : Cfg) (s : State) (t : Tor) (g : GoodT s.now t)
     (hp : t.present = true) (hc : t.complete = true) :
-    (tickTor cfg s.now t).cached = true ∧ (tickTor cfg s.now t).dl = t.dl ∧ (tickTor cfg s.now t).pieces = t.pieces := by
-  have hf := g.files_c hp hc
+    (tickTor cfg s.now t).cached = t.cached ∧ (tickTor cfg s.now t).dl = t.dl ∧ (tickTor cfg s.now t).pieces = t.pieces := by
   unfold tickTor removeTor
-  split <;> simp [hp, hc, hf]
+  split <;> simp [hp, hc]
 
 theorem cached_new (cfg : Cfg) (now : Nat) (t : Tor) (k : Nat) (hc : t.cached = true) :
     (newTor cfg now t k).cached = true := by
   unfold newTor; repeat' split
-  all_goals simp_all
+  all_goals simp_all [createTor_cached]
+
+theorem cached_peer (cfg : Cfg) (now : Nat) (t : Tor) (k : Nat) (hc : t.cached = true) :
+    (peerTor cfg now t k).cached = true := by
+  unfold peerTor; split
+  · exact hc
+  · exact createTor_cached cfg now t k hc
 
 theorem cached_serve (now : Nat) (t : Tor) (i : Nat) (c : Bool) (hc : t.cached = true) :
     (serveTor now t i c).1.cached = true := by
@@ -457,7 +561,7 @@ theorem cached_tick (cfg : Cfg) (now : Nat) (t : Tor) (g : GoodT now t) (hc : t.
     simp [hp', hc]
 
 theorem cached_survives (cfg : Cfg) (s : State) (o : Op) (h : Hash) (g : GoodT s.now (s.tors h))
-    (ho : o ≠ .rm h) (hc : (s.tors h).cached = true) : ((next cfg s o).tors h).cached = true := by
+    (ho : o ≠ .rm h) (he : o ≠ .evict h) (hc : (s.tors h).cached = true) : ((next cfg s o).tors h).cached = true := by
   cases o with
   | adv d => simpa [next, step] using hc
   | new h' k =>
@@ -478,5 +582,97 @@ theorem cached_survives (cfg : Cfg) (s : State) (o : Op) (h : Hash) (g : GoodT s
     · subst e; exact absurd rfl ho
     · simp [next, step, upd_other _ _ _ _ e, hc]
   | notice h' => simpa [next, step] using hc
+  | peer h' k =>
+    by_cases e : h = h'
+    · subst e; simp [next, step, upd_same, cached_peer _ _ _ _ hc]
+    · simp [next, step, upd_other _ _ _ _ e, hc]
+  | evict h' =>
+    by_cases e : h = h'
+    · subst e; exact absurd rfl he
+    · simp [next, step, upd_other _ _ _ _ e, hc]
+  | lost h' i => simpa [next, step] using hc
+  | other => simpa [next, step] using hc
+
+-- ------------------------------------------------------------------ creation time = history
+
+/-- operation `o`, applied in `s`, creates a control for `h`: a request or a connecting peer finds no
+    control, or a request finds the control of an evicted blob (and does not restore the blob itself) -/
+def createsB (cfg : Cfg) (s : State) (o : Op) (h : Hash) : Bool :=
+  match o with
+  | .new h' k => decide (h' = h) &&
+      (!(s.tors h).present || ((s.tors h).complete && !(s.tors h).cached && decide (k < cfg.numPieces)))
+  | .peer h' _ => decide (h' = h) && !(s.tors h).present
+  | _ => false
+
+theorem createTor_created (cfg : Cfg) (now : Nat) (t : Tor) (k : Nat) : (createTor cfg now t k).created = now := by
+  unfold createTor; split <;> rfl
+
+theorem created_step (cfg : Cfg) (s : State) (o : Op) (h : Hash) :
+    ((next cfg s o).tors h).created = if createsB cfg s o h = true then s.now else (s.tors h).created := by
+  cases o with
+  | adv d => simp [next, step, createsB]
+  | new h' k =>
+    by_cases e : h = h'
+    · subst e
+      simp only [next, step, upd_same, createsB, decide_true, Bool.true_and]
+      unfold newTor
+      cases hp : (s.tors h).present <;> cases hc : (s.tors h).complete <;> cases hca : (s.tors h).cached <;>
+        by_cases hk : cfg.numPieces ≤ k <;> simp [hk, createTor_created] <;> omega
+    · have e' : ¬ h' = h := fun x => e x.symm
+      simp [next, step, upd_other _ _ _ _ e, createsB, e']
+  | serve h' i c =>
+    by_cases e : h = h'
+    · subst e; simp only [next, step, upd_same, createsB]
+      unfold serveTor; repeat' split
+      all_goals simp
+    · simp [next, step, upd_other _ _ _ _ e, createsB]
+  | write h' i q =>
+    by_cases e : h = h'
+    · subst e; simp only [next, step, upd_same, createsB]
+      unfold writeTor; repeat' split
+      all_goals simp
+    · simp [next, step, upd_other _ _ _ _ e, createsB]
+  | tick =>
+    simp only [next, step, createsB]
+    unfold tickTor removeTor; repeat' split
+    all_goals simp
+  | rm h' =>
+    by_cases e : h = h'
+    · subst e; simp only [next, step, upd_same, createsB]
+      unfold rmTor removeTor; repeat' split
+      all_goals simp
+    · simp [next, step, upd_other _ _ _ _ e, createsB]
+  | notice h' => simp [next, step, createsB]
+  | peer h' k =>
+    by_cases e : h = h'
+    · subst e
+      simp only [next, step, upd_same, createsB, decide_true, Bool.true_and]
+      unfold peerTor
+      cases hp : (s.tors h).present <;> simp [createTor_created]
+    · have e' : ¬ h' = h := fun x => e x.symm
+      simp [next, step, upd_other _ _ _ _ e, createsB, e']
+  | evict h' =>
+    by_cases e : h = h'
+    · subst e; simp only [next, step, upd_same, createsB]
+      unfold evictTor; split <;> simp
+    · simp [next, step, upd_other _ _ _ _ e, createsB]
+  | lost h' i => simp [next, step, createsB]
+  | other => simp [next, step, createsB]
+
+/-- the time of the last creating operation in a history (`acc` when there is none) -/
+def createdHist (cfg : Cfg) (h : Hash) : State → List Op → Nat → Nat
+  | _, [], acc => acc
+  | s, o :: os, acc => createdHist cfg h (next cfg s o) os (if createsB cfg s o h = true then s.now else acc)
+
+theorem created_runFrom (cfg : Cfg) (h : Hash) (ops : List Op) : ∀ s : State,
+    ((runFrom cfg s ops).tors h).created = createdHist cfg h s ops (s.tors h).created := by
+  induction ops with
+  | nil => intro s; rfl
+  | cons o os ih =>
+    intro s
+    simp only [runFrom, List.foldl_cons, createdHist]
+    have := ih (next cfg s o)
+    simp only [runFrom] at this
+    rw [this, created_step]
 
 end KrakenModel.Proof.C18
